@@ -65,7 +65,7 @@ pub fn first_info(ag: &AG) -> FirstInfo {
     }
 }
 
-fn first_of(seq: &[Sym], la: usize, fi: &FirstInfo) -> BTreeSet<usize> {
+pub fn first_of(seq: &[Sym], la: usize, fi: &FirstInfo) -> BTreeSet<usize> {
     let mut out = BTreeSet::new();
     for s in seq {
         match s {
@@ -105,6 +105,47 @@ pub fn closure1(flat: &Flat, fi: &FirstInfo, core: &State1) -> State1 {
         }
     }
     set
+}
+
+/// Closure in the set formulation the implementation uses: an item is a (production, dot) pair with
+/// a lookahead *set*, `[A -> a . B b, L]` contributes `[B -> . c, FIRST(b) + (L if b is nullable)]`
+/// - also when that set is empty. On grammars whose rules all derive token strings no empty set
+/// arises and this is the textbook closure; with an unproductive `b` the textbook adds nothing,
+/// the set formulation an item with an empty set (and whatever follows from it).
+pub fn closure_sets(flat: &Flat, fi: &FirstInfo, core: &BTreeMap<(usize, usize), BTreeSet<usize>>) -> BTreeMap<(usize, usize), BTreeSet<usize>> {
+    let mut m = core.clone();
+    loop {
+        let mut changed = false;
+        let keys: Vec<(usize, usize)> = m.keys().cloned().collect();
+        for (p, d) in keys {
+            let syms = &flat.prods[p].1;
+            if d >= syms.len() {
+                continue;
+            }
+            if let Sym::R(b) = syms[d] {
+                let mut ctx = first_of(&syms[d + 1..], usize::MAX, fi);
+                if ctx.remove(&usize::MAX) {
+                    ctx.extend(m[&(p, d)].iter().cloned());
+                }
+                for &bp in &flat.rule_prods[b] {
+                    match m.get_mut(&(bp, 0)) {
+                        Some(e) => {
+                            let n = e.len();
+                            e.extend(ctx.iter().cloned());
+                            changed |= e.len() != n;
+                        }
+                        None => {
+                            m.insert((bp, 0), ctx.clone());
+                            changed = true;
+                        }
+                    }
+                }
+            }
+        }
+        if !changed {
+            return m;
+        }
+    }
 }
 
 /// Builds the canonical automaton; `None` if it would exceed `max_states`.
